@@ -1,8 +1,10 @@
 #!/usr/bin/env python3
 
 import logging
+import os
 import re
 import sys
+from contextlib import contextmanager
 from functools import cached_property
 from io import BytesIO
 from pathlib import Path
@@ -18,6 +20,23 @@ from tola.fasta.simple import FastaSeq, revcomp_bytes_io
 
 class IndexUsageError(Exception):
     """Unexpected usage of FastaIndex"""
+
+
+@contextmanager
+def replace_file(path: Path):
+    """
+    Opens a temporary file next to `path` for writing, and renames it to
+    `path` once it has been completely written, so that a partially written
+    file is never seen under the final name.
+    """
+    tmp = path.with_name(f"{path.name}.{os.getpid()}.tmp")
+    try:
+        with tmp.open("w") as fh:
+            yield fh
+        tmp.replace(path)
+    except BaseException:
+        tmp.unlink(missing_ok=True)
+        raise
 
 
 class FastaInfo:
@@ -133,7 +152,7 @@ class FastaIndex:
             raise IndexUsageError(msg)
         if self.fai_file.exists():
             logging.warning(f"Overwriting FAI index file '{self.fai_file}'")
-        with self.fai_file.open("w") as idx_fh:
+        with replace_file(self.fai_file) as idx_fh:
             for name, info in idx_dict.items():
                 idx_fh.write(info.fai_row(name))
 
@@ -150,7 +169,7 @@ class FastaIndex:
             raise IndexUsageError(msg)
         if self.agp_file.exists():
             logging.warning(f"Overwriting AGP assembly file '{self.agp_file}'")
-        with self.agp_file.open("w") as agp_fh:
+        with replace_file(self.agp_file) as agp_fh:
             format_agp(asm, agp_fh)
 
     def run_indexing(self):
